@@ -1,4 +1,11 @@
-"""C15 - changelog parsing is total and strictness-consistent; output is a normal form (Engine B + A)."""
+"""C15 - changelog parsing is total and strictness-consistent; output is a normal form (Engine B + A).
+
+Beyond the small scope (signatures ladder/..., size/..., deep/...): n copies of every line shape in four contexts, n blocks /
+settings / distributions / change lines / blank lines (well-formed and damaged at the nth element), n editing calls, for n
+in 1..40 and 63..1001 (some ladders ..5000); texts of exactly L bytes (997 .. 262 145) with line ends next to the multiples
+of 65 536, well-formed and damaged, and lines of exactly L characters; all editing histories of length <= 5 over 9 operations
+including "go on with a deep copy" / "go back to the object left behind" (objects left behind may not change).
+"""
 import copy
 import io
 import itertools
@@ -23,7 +30,10 @@ RULE = ("(a) all sequences of <= n lines over 21 line shapes (one per branch of 
         "bytes(), write_to_open_file, per-block str/bytes, copies and pickles; subscripts, len, versions and the "
         "top-block properties), each compared with the constructor + str() + iteration route validated in (a)/(b); "
         "editing histories are re-run through the set_* methods, block objects, Version-typed / positional arguments and "
-        "with formatting and reading after every call")
+        "with formatting and reading after every call; (e) beyond the small scope: count ladders (n copies of a line shape in four "
+        "contexts, n blocks / settings / distributions / change lines / blank lines, n editing calls), a size ladder (texts of "
+        "exactly L bytes with line ends placed next to the multiples of 65 536, lines of exactly L characters) and deep, narrow "
+        "editing histories with deep copies that are left behind and returned to: one state / transition per text or history")
 BUDGET = {"quick": 240, "thorough": 3000}
 
 
@@ -35,6 +45,23 @@ def bounds(tier):
             "routes_pass": "all sequences of length <= %d over the line shapes and all single-line mutations of the 3 well-formed changelogs, allow_empty_author on/off, x {parse_changelog lenient/strict/default-strict on a fresh object, on 5 kinds of used object (parsed two-block, parsed-with-warnings, aborted strict parse, the same text twice, programmatically built), constructor with every argument explicit / positional, file=None, max_blocks in {0,1,2,10**6} (lenient, strict, prefix of the unlimited result, normal form), encoding latin-1/utf-8 for bytes / bytes lines / mixed str+bytes lines with a non-ASCII change text and the per-call encoding override, real text-mode and binary files, str() twice, bytes(), write_to_open_file, initial_blank_lines + str(block)/bytes(block), copy.copy / copy.deepcopy (with independence) / pickle, c[i] for -n <= i < n, len, get_version/versions/get_versions/full_version/epoch/upstream_version/debian_revision/debian_version, c[version text] and c[Version], package/get_package/author/date/distributions/urgency}" % ROUTES_MAXLEN[tier],
             "edit_route_variants": "every editing history also via %s; final blocks and text must equal the plain history's" % ", ".join(VARIANTS[1:]),
             "direct_blocks": "ChangeBlock built directly / new_block with an encoding, 3 argument sets x {utf-8, latin-1}: str/bytes of block and changelog agree, bytes re-parse to the same block",
+            "count_ladders": {"counts": "every n in 1..40 and %r; %r as well for %r%s" % (
+                                  LADDER_BIG, LADDER_BIGGER, LADDER_WIDE, "" if tier == "quick" else " and for every other ladder (thorough)"),
+                              "repeat": "n copies of each of the %d line shapes x contexts %r (counts above 40: %s), allow_empty_author "
+                                        "off and on (above 40: off)" % (len(shapes(0)), CONTEXTS, "contexts in-block and after-block" if tier == "quick" else "all contexts"),
+                              "structures": ["%s / %s" % x for x in STRUCT_LADDERS],
+                              "edit_calls": "n calls of %r on each of the %d base changelogs (n <= 10: along every editing route; above: the plain route; quick, n > 257: bases 0 and 2 only)" % (
+                                  [e[0] + ("" if e[1] is None else " #%d" % e[1]) for e in EDIT_LADDERS], len(bases(0))),
+                              "input_forms": "n <= 40 and n in (1000, 1001): also as %r - same warnings / strictness / blocks / text" % (LADDER_FORMS,)},
+            "size_ladder": {"total_bytes": SIZE_L,
+                            "texts": "built as in C04 (blocks of 25 change lines, a line end on the byte before / on / after every multiple "
+                                     "of 65 536 or behind a two-byte character that straddles it), in the variants %r (quick: the damaged variants with the line end on the multiple and behind the two-byte character only); and short texts "
+                                     "with one line of exactly L characters: %r" % (SIZE_VARIANTS, SIZE_LINE_STYLES),
+                            "input_forms": list(LADDER_FORMS)},
+            "deep_histories": "all histories of length <= %d over %d operations %r on the bases %r (the empty changelog: one level less); fork = go on with a deep copy and "
+                              "leave the object behind, swap = go on with the object left behind last; observed after the last step: "
+                              "normal form of the current object, every object left behind unchanged since it was left"
+                              % (DEEP_DEPTH[tier], len(DEEP_OPS), [o[0] + ("" if len(o) < 2 or isinstance(o[1], dict) and not o[1] else ":" + str(o[1])[:12]) for o in DEEP_OPS], DEEP_BASES),
             "pristine_state_pass": "all sequences of length <= %d and all single-line mutations, each evaluated in a process forked from a zygote that only imported the library" % (3 if tier == "quick" else 4)}
 
 
@@ -46,6 +73,12 @@ def assumptions():
             "lines and the text are the first k blocks of the unlimited result, and the strict/lenient equivalence and "
             "the normal form hold for what was parsed; with max_blocks=0 only the lines ahead of the first heading are kept "
             "and their text is not required to be a normal form (parsing e.g. '# c' alone gives one unformattable block)",
+            "ladders and sizes are judged by the same oracle as the short texts (total, strict <=> warning, normal form, same "
+            "result for str / bytes / lines input); what a text of n junk lines 'should' warn is not prescribed, only that "
+            "strict and lenient agree; texts and histories are regenerated from the case description on replay",
+            "deep histories: an object that was deep-copied and left behind owns its blocks - editing the copy (or the original, "
+            "after a swap) may not change the other one (the statement speaks about a changelog, not about the set of live objects; "
+            "copy.deepcopy is the documented way to get an independent changelog)",
             "routes not covered by the statement and left out: bytes that cannot be decoded with the given encoding "
             "(not a text), parse_changelog(None) on a used object (keeps the previous blocks), _format(allow_missing_author=True) "
             "(private), add_trailing_line on a block without a trailer line (a state no parse produces; the text then runs "
@@ -872,6 +905,323 @@ def check_direct(ki, enc):
     return bad
 
 
+# ---------------------------------------------------------------- beyond the small scope: count ladders, size ladder
+# A case is a compact description {"kind": "ladder", "ladder", "arr", "n", ...}; the text is regenerated from it.
+
+LADDER_SMALL = list(range(1, 41))
+LADDER_BIG = [63, 64, 65, 100, 127, 128, 129, 255, 256, 257, 999, 1000, 1001]
+LADDER_BIGGER = [1025, 2500, 2501, 5000]          # only for the ladders named in LADDER_WIDE (and the thorough tier)
+CONTEXTS = ["alone", "in-block", "after-block", "before-first-heading"]
+# ladders that are not "n copies of line shape k": (ladder, arrangement)
+STRUCT_LADDERS = [("blocks", "well-formed"), ("blocks", "one-space-trailers"), ("blocks", "no-blank-lines"), ("blocks", "last-one-broken"),
+                  ("blocks", "last-one-without-trailer"),
+                  ("settings", "well-formed"), ("settings", "last-one-repeats-a-key"), ("settings", "last-one-invalid"),
+                  ("settings", "first-one-invalid"),
+                  ("distributions", "well-formed"), ("change-lines", "kinds-in-turn"),
+                  ("blank-lines", "between-blocks"), ("blank-lines", "whitespace-only-in-block")]
+LADDER_WIDE = [("blocks", "well-formed"), ("change-lines", "kinds-in-turn"), ("settings", "well-formed")]
+EDIT_LADDERS = [("add_change", 4), ("add_change", 5), ("add_change", 6), ("new_block", 0), ("new_block", 1), ("new_block", 3),
+                ("add_change-alternating", None), ("new_block-then-add_change", None), ("badd-oldest", 18)]
+SIZE_L = [997, 998, 999, 1000, 4095, 4096, 4097, 16383, 16384, 16385, 65535, 65536, 65537, 131071, 131072, 131073, 196608,
+          262143, 262144, 262145]
+SIZE_VARIANTS = ["well-formed", "junk-at-the-boundaries", "one-space-trailers", "no-final-trailer"]
+SIZE_LINE_STYLES = ["change-line-of-L", "heading-of-L", "trailer-of-L", "junk-line-of-L", "one-space-line-of-L", "comment-line-of-L"]
+LADDER_FORMS = ("bytes", "lines", "bytesio")
+
+
+def ladder_counts(tier, wide=False):
+    return LADDER_SMALL + LADDER_BIG + (LADDER_BIGGER if wide or tier != "quick" else [])
+
+
+def ladder_text(case):
+    """the text of a ladder / size case"""
+    seed = case.get("seed", 0)
+    sh = shapes(seed)
+    H, H2, T, T1, CH = sh[0], sh[1], sh[5], sh[6], sh[10]
+    p = H.split(" ")[0]
+    ladder, arr, n = case["ladder"], case["arr"], case["n"]
+    if ladder == "repeat":
+        rep = [sh[case["shape"]]] * n
+        lines = {"alone": rep, "in-block": [H, CH] + rep + [T], "after-block": [H, CH, T] + rep,
+                 "before-first-heading": rep + [H, CH, T]}[arr]
+    elif ladder == "blocks":
+        lines = []
+        for i in range(n):
+            head = "%s (%d.%d-1) unstable; urgency=low" % (p, n - i, i % 10)
+            trailer = T1 if arr == "one-space-trailers" else T
+            body = [head, "", "  * change %d" % i, "", trailer, ""]
+            if arr == "no-blank-lines":
+                body = [head, "  * change %d" % i, trailer]
+            if i == n - 1 and arr == "last-one-broken":
+                body = [head, "", "  * change %d" % i, "junk", trailer, ""]
+            if i == n - 1 and arr == "last-one-without-trailer":
+                body = [head, "", "  * change %d" % i]
+            lines += body
+    elif ladder == "settings":
+        pairs = ["k%d=v %d" % (i, i) for i in range(n)]
+        if arr == "last-one-repeats-a-key":
+            pairs[-1] = "k0=again" if n > 1 else "urgency=high"
+        elif arr == "last-one-invalid":
+            pairs[-1] = "bad"
+        elif arr == "first-one-invalid":
+            pairs[0] = "bad"
+        lines = ["%s (1.0-1) unstable; urgency=low, %s" % (p, ", ".join(pairs)), "", CH, "", T]
+    elif ladder == "distributions":
+        lines = ["%s (1.0-1) %s; urgency=low" % (p, " ".join("d-%d" % i for i in range(n))), "", CH, "", T]
+    elif ladder == "change-lines":
+        kinds = ["  * item", "    cont", "", "   ", "  [ N ]", "# comment"]
+        lines = [H] + [kinds[i % 6] + (" %d" % i if i % 6 in (0, 1) else "") for i in range(n)] + [T]
+    elif ladder == "blank-lines":
+        if arr == "between-blocks":
+            lines = [H, CH, T] + [""] * n + [H2, CH, T]
+        else:
+            lines = [H, CH] + [" " * (1 + i % 3) for i in range(n)] + [CH, T]
+    elif ladder == "size":
+        return size_text(case)
+    else:
+        raise ValueError(ladder)
+    return "\n".join(lines) + "\n"
+
+
+def size_text(case):
+    """texts of exactly n bytes built like C04's size ladder (blocks of 25 change lines, a line end next to every multiple of
+    65 536), well-formed or damaged; or a short text with one line of exactly n characters"""
+    from . import c04
+    seed, L, arr = case.get("seed", 0), case["n"], case["arr"]
+    sh = shapes(seed)
+    H, T, T1, CH = sh[0], sh[5], sh[6], sh[10]
+    if arr in SIZE_LINE_STYLES:
+        if arr in ("change-line-of-L", "heading-of-L", "trailer-of-L"):
+            doc = c04.size_doc(c04.comps(seed), L, arr, None)
+            return c04.render(doc)[0]
+        line = {"junk-line-of-L": c04._filled("junk ", L), "one-space-line-of-L": c04._filled(" one-space ", L),
+                "comment-line-of-L": c04._filled("# ", L)}[arr]
+        return "\n".join([H, CH, line, CH, T, "", line, ""]) + "\n"
+    doc = c04.size_doc(c04.comps(seed), L, "lines", case["where"])
+    text = c04.render(doc)[0]
+    if arr == "well-formed":
+        return text
+    lines = text.split("\n")[:-1]
+    if arr == "junk-at-the-boundaries":
+        # every padded line (the ones whose end was placed) becomes a line of the same length that is no change line
+        lines = [("junk" + l[4:]) if (l.startswith("  * lorem") and len(l) != 60) else l for l in lines]
+    elif arr == "one-space-trailers":
+        lines = [l.replace(">  ", "> ", 1) if l.startswith(" -- ") else l for l in lines]
+        lines[1] += "z" * sum(1 for l in lines if l.startswith(" -- "))       # keep the total length
+    elif arr == "no-final-trailer":
+        pad = len(lines[-1]) + 1
+        lines = lines[:-1]
+        lines[-1] += "y" * pad
+    out = "\n".join(lines) + "\n"
+    assert len(out.encode("utf-8")) == L, (case, len(out.encode("utf-8")))
+    return out
+
+
+def check_forms_some(text, aea, names=LADDER_FORMS):
+    if not text.strip():
+        return []
+    ref = fingerprint(text, aea)
+    for name, mk in forms(text):
+        if name not in names:
+            continue
+        got = fingerprint(mk, aea)
+        if got != ref:
+            what = "warns" if got[0] != ref[0] else "strict" if got[1] != ref[1] else "blocks" if got[2] != ref[2] else "text"
+            return [("chlog/input-form/%s/%s" % (name, what), ref, got)]
+    return []
+
+
+def ladder_edit_history(case):
+    """-> (base text, list of operations) of an edit ladder: n editing calls of one kind"""
+    name, n = case["arr"], case["n"]
+    op = case.get("op")
+    if name == "add_change-alternating":
+        hist = [OPS[4 + i % 3] for i in range(n)]
+    elif name == "new_block-then-add_change":
+        hist = [OPS[(0, 4, 5)[i % 3]] for i in range(n)]
+    else:
+        hist = [OPS[op]] * n
+    return bases(case.get("seed", 0))[case["base"]], hist
+
+
+def exec_ladder(case):
+    """-> (violations with ladder/size signatures, outcome class, parses)"""
+    ladder = case["ladder"]
+    if ladder == "edit":
+        base, hist = ladder_edit_history(case)
+        if case["n"] <= 10:
+            bad, oc, nruns = run_history_all(base, hist)
+        else:
+            bad, oc, _fp = run_history(base, hist)
+            nruns = 1
+        pre = "ladder/edit/%s/" % case["arr"]
+        return [(pre + sig, e, o) for sig, e, o in bad], "ladder/edit/%s" % oc, nruns
+    text = ladder_text(case)
+    bad, oc = check_text(text, case["aea"])
+    nparse = 5
+    if not bad and case.get("forms"):
+        bad = check_forms_some(text, case["aea"])
+        nparse += 2 * len(LADDER_FORMS)
+    if ladder == "size":
+        pre = "size/%s/" % case["arr"]
+    elif ladder == "repeat":
+        pre = "ladder/repeat/%s/" % case["arr"]
+    else:
+        pre = "ladder/%s/%s/" % (ladder, case["arr"])
+    return [(pre + sig, e, o) for sig, e, o in bad], "%s%s" % (pre.split("/")[0] + "/", oc), nparse
+
+
+def ladder_cases(u, tier, seed):
+    k = u["kind"]
+    out = []
+    if k == "ladder-repeat":
+        big = u["part"] == "big"
+        ns = ladder_counts(tier)[40:] if big else LADDER_SMALL
+        for arr in (CONTEXTS[1:3] if big and tier == "quick" else CONTEXTS):
+            for n in ns:
+                for aea in ((False,) if big else (False, True)):
+                    out.append({"kind": "ladder", "ladder": "repeat", "arr": arr, "shape": u["shape"], "n": n, "aea": aea, "seed": seed,
+                                "forms": n <= 40 or n in (1000, 1001)})
+    elif k == "ladder-struct":
+        ladder, arr = STRUCT_LADDERS[u["which"]]
+        ns = ladder_counts(tier, (ladder, arr) in LADDER_WIDE)
+        ns = ns[40:] if u["part"] == "big" else ns[:40]
+        for n in ns:
+            for aea in ((False, True) if n <= 40 else (False,)):
+                out.append({"kind": "ladder", "ladder": ladder, "arr": arr, "n": n, "aea": aea, "seed": seed,
+                            "forms": n <= 40 or n in (1000, 1001)})
+    elif k == "ladder-edit":
+        name, op = EDIT_LADDERS[u["which"]]
+        for base in range(len(bases(seed))):
+            for n in ladder_counts(tier):
+                if tier == "quick" and n > 257 and base not in (0, 2):
+                    continue
+                out.append({"kind": "ladder", "ladder": "edit", "arr": name, "op": op, "base": base, "n": n, "seed": seed})
+    elif k == "size":
+        if u["arr"] in SIZE_LINE_STYLES:
+            out = [{"kind": "ladder", "ladder": "size", "arr": u["arr"], "n": L, "aea": False, "seed": seed, "forms": True} for L in SIZE_L]
+        else:
+            out = [{"kind": "ladder", "ladder": "size", "arr": u["arr"], "where": w, "n": L, "aea": False, "seed": seed, "forms": True}
+                   for L in SIZE_L for w in ((-1, 0, 1, "mb") if u["arr"] == "well-formed" or tier != "quick" else (0, "mb"))]
+    return out
+
+
+def run_ladder_unit(part, u, tier, seed):
+    cases = ladder_cases(u, tier, seed)
+    for case in cases:
+        bad, oc, nparse = exec_ladder(case)
+        part.states += 1
+        part.transitions += 1
+        part.traces += nparse
+        part.evaluations += 1 + bool(case.get("forms"))
+        part.outcomes[oc] += 1
+        if oc and ("normal" in oc):
+            part.nontrivial += 1
+        if case["ladder"] != "size":
+            part.max_depth = max(part.max_depth, case["n"])
+        for sig, exp, obs in bad:
+            part.violation(sig, case, exp, obs, rank=1000 + case["n"])
+    part.extra["%s cases (beyond the small scope)" % u["kind"]] += len(cases)
+    if cases:
+        part.sample(cases[0])
+        part.sample(cases[-1])
+    return part
+
+
+# ---------------------------------------------------------------- deep, narrow editing histories (hidden state)
+
+DEEP_OPS = [("new_block", dict(NB, changes=["", "  * nc", ""])), ("new_block", {}), ("add_change", "  * added"), ("add_change", ""),
+            ("set", "date", "Thu, 04 Jan 2024 01:02:03 -0500"), ("badd", -1, "  * added to the oldest block"), ("reparse",),
+            ("fork",), ("swap",)]
+DEEP_DEPTH = {"quick": 5, "thorough": 6}
+DEEP_BASES = [0, 2]
+DEEP_LESS = {0: 1}          # the empty changelog: one level less (half of its histories end at 'no block to edit')
+
+
+def _snapshot(c):
+    return (blocks(c), _out(c))
+
+
+def run_deep(base, hist):
+    """One history over DEEP_OPS.  'fork' leaves the current object behind and goes on with a deep copy of it; 'swap'
+    goes on with the object left behind last (and leaves the current one behind).  An object that is left behind may
+    not change.  -> (violations, outcome)"""
+    from debian.changelog import Changelog
+    aea = True
+    if base:
+        c, _w, e = run(base, allow_empty_author=aea)
+        if e is not None:
+            return [("chlog/lenient-raises/%s" % type(e).__name__, "no exception", repr(e))], None
+    else:
+        c = Changelog()
+    left = []
+    for op in hist:
+        op = copy.deepcopy(op)
+        try:
+            if op[0] == "new_block":
+                c.new_block(**op[1])
+            elif op[0] == "add_change":
+                c.add_change(op[1])
+            elif op[0] == "set":
+                setattr(c, op[1], op[2])
+            elif op[0] == "badd":
+                c[op[1]].add_change(op[2])
+            elif op[0] == "reparse":
+                text = _out(c)
+                if not text.startswith("<") and text.strip():
+                    _c, _w, e = _method(text, aea, "lenient", obj=c)
+                    if e is not None:
+                        return [("chlog/deep/reparse-raises/%s" % type(e).__name__, "lenient parse never raises", repr(e))], None
+            elif op[0] == "fork":
+                left.append((c, _snapshot(c)))
+                c = copy.deepcopy(c)
+            elif op[0] == "swap":
+                if left:
+                    other, snap = left.pop()
+                    now = _snapshot(other)
+                    if now != snap:
+                        return [("chlog/deep/object-left-behind-changed", snap, now)], None
+                    left.append((c, _snapshot(c)))
+                    c = other
+        except IndexError as ex:
+            if _cce_or(lambda: len(c)) != 0:
+                return [("chlog/deep/index-error-with-blocks", "block #%r of %r" % (op[1], _cce_or(lambda: len(c))), repr(ex))], None
+            return [], "no-block"
+    for other, snap in left:
+        now = _snapshot(other)
+        if now != snap:
+            return [("chlog/deep/object-left-behind-changed", snap, now)], None
+    bad, oc = normal_form(c, aea, "deep")
+    return bad, oc
+
+
+def run_deep_unit(part, u, tier, seed):
+    depth = DEEP_DEPTH[tier] - DEEP_LESS.get(u["base"], 0)
+    base = bases(seed)[u["base"]]
+    n = 0
+    # the unit without a first pair owns the histories of length 0 and 1, every other unit those that start with its pair
+    for L in (range(0, 2) if not u["first"] else range(0, depth - 1)):
+        for rest in itertools.product(range(len(DEEP_OPS)), repeat=L):
+            hist_i = tuple(u["first"]) + rest
+            case = {"kind": "deep", "base": u["base"], "hist": hist_i, "seed": seed}
+            bad, oc = run_deep(base, [DEEP_OPS[i] for i in hist_i])
+            n += 1
+            part.traces += 1
+            part.evaluations += 1
+            for sig, exp, obs in bad:
+                part.violation("deep/" + sig, case, exp, obs, rank=300 + len(hist_i))
+            if oc:
+                part.outcomes["deep/" + oc] += 1
+                if oc == "normal":
+                    part.nontrivial += 1
+    part.states += n
+    part.transitions += n
+    part.max_depth = depth
+    part.extra["deep-narrow editing histories"] += n
+    part.sample(case)
+    return part
+
+
 # ---------------------------------------------------------------- units
 
 def units(tier, seed):
@@ -899,10 +1249,21 @@ def units(tier, seed):
     for wi in range(3):
         out += [{"kind": "routes-mut", "w": wi, "pos": pos} for pos in range(len(wellformed(seed)[wi]) + 1)]
     out.append({"kind": "direct"})
+    # beyond the small scope
+    out += [{"kind": "ladder-repeat", "shape": k, "part": part} for k in range(n) for part in ("small", "big")]
+    out += [{"kind": "ladder-struct", "which": i, "part": part} for i in range(len(STRUCT_LADDERS)) for part in ("small", "big")]
+    out += [{"kind": "ladder-edit", "which": i} for i in range(len(EDIT_LADDERS))]
+    out += [{"kind": "size", "arr": a} for a in SIZE_VARIANTS + SIZE_LINE_STYLES]
+    out += [{"kind": "deep", "base": b, "first": ()} for b in DEEP_BASES]
+    out += [{"kind": "deep", "base": b, "first": (i, j)} for b in DEEP_BASES for i in range(len(DEEP_OPS)) for j in range(len(DEEP_OPS))]
     return out
 
 
 def unit_cost(u, tier):
+    if u["kind"].startswith("ladder") or u["kind"] == "size":
+        return 9 if u.get("part") == "big" or u["kind"] == "size" else 4
+    if u["kind"] == "deep":
+        return 5
     return {"seq": 10 if u.get("prefix") else 1, "mut1": 3, "mut2": 8, "edit": 9, "pristine-seq": 12,
             "pristine-mut": 6, "routes-seq": 2 if tier == "quick" else 11, "routes-mut": 3, "direct": 1}[u["kind"]]
 
@@ -910,6 +1271,10 @@ def unit_cost(u, tier):
 def run_unit(u, tier, seed):
     part = core.Part()
     sh = shapes(seed)
+    if u["kind"].startswith("ladder") or u["kind"] == "size":
+        return run_ladder_unit(part, u, tier, seed)
+    if u["kind"] == "deep":
+        return run_deep_unit(part, u, tier, seed)
     if u["kind"] == "seq":
         n = 4 if tier == "quick" else 5
         if not u["prefix"]:
@@ -1091,6 +1456,10 @@ def case_text(case):
 def replay(case):
     seed = case.get("seed", 0)
     sh = shapes(seed)
+    if case["kind"] == "ladder":
+        return exec_ladder(case)[0]
+    if case["kind"] == "deep":
+        return [("deep/" + sig, e, o) for sig, e, o in run_deep(bases(seed)[case["base"]], [DEEP_OPS[i] for i in case["hist"]])[0]]
     if case["kind"] in ("routes-seq", "routes-mut"):
         return check_routes(case_text(case), case["aea"], seed)[0]
     if case["kind"] == "routes-none":
